@@ -142,17 +142,6 @@ def canaryPack : Pack CanaryW where
      if w.exp = .pending then "canary:exp-pending" else "canary:exp-none"] ++
     (if w.waitResume then ["canary:waitResume"] else []) ++ (if w.patch.isSome then ["canary:patchMeta"] else [])
 
-def rsPack : Pack Bool where
-  name := "stsLike(ReplicaSet)"
-  plane := rsPlane
-  preds := rsPreds
-  releasedFull := rsPreds.released
-  guards := fun _ ex => if ex then ["guard:stsPlaneForeignKind"] else []
-  planePanicOK := fun _ _ => false
-  decode := fun j => fBool j "exists"
-  encode := fun j ex => setKeys j [("exists", boolJ ex)]
-  tags := fun _ ex => [if ex then "wl" else "nowl"]
-
 /-! ### kinds and styles -/
 
 def refKindOf : String → R RefKind
@@ -256,12 +245,6 @@ def handle : Handler := fun op inp impl => do
     let implPanic := (jopt impl "panic").isSome
     let mismatch : R OpResult :=
       return { model := .null, holds := [], tags := "mismatch:dispatch" :: baseTags }
-    -- a CloneSet / Deployment / DaemonSet that no arm of `getReleaseController` serves under this style is handed to the
-    -- StatefulSet-like control (finding `stsPlaneForeignKind`): not modelled, judged on "does not crash" alone
-    let foreign : R OpResult :=
-      return { model := .null, holds := [("C09.x_no_panic", !implPanic)],
-               tags := ["plane:stsLike(foreign kind)", "guard:stsPlaneForeignKind", if k > 0 then "fault" else "nofault"] ++
-                       (if implPanic then ["impl:panic"] else []) ++ baseTags }
     match dispatch kind style enable with
     | none =>
       -- no plane: the initialised status is persisted, nothing else
@@ -273,7 +256,8 @@ def handle : Handler := fun op inp impl => do
                     | none => .null
                     | some b => mkObj [("hasFinalizer", boolJ b.hasFinalizer), ("status", RV.Drv.Executor.statusToJson b.status)]),
                  ("world", worldIn), ("requeue", boolJ o.requeue), ("err", boolJ o.err)]
-      let tags := baseTags ++ ["plane:none", if k > 0 then "fault" else "nofault"]
+      let tags := baseTags ++ ["plane:none", if kind = .unsupported then "refused:unsupported-kind" else "refused:no-plane-for-kind-and-style",
+        if k > 0 then "fault" else "nofault"]
       match jopt impl "panic" with
       | some _ => return { model := model, holds := [("C09.x_no_panic", false)], tags := "impl:panic" :: tags }
       | none =>
@@ -292,8 +276,6 @@ def handle : Handler := fun op inp impl => do
     | some .dsPartition => if shape = "sts" then runPack stsPack br worldIn k impl baseTags else mismatch
     | some .stsLike =>
       if shape = "sts" ∧ (kind = .nativeSts ∨ kind = .advancedSts) then runPack stsPack br worldIn k impl baseTags
-      else if shape = "rs" ∧ kind = .replicaSet then runPack rsPack br worldIn k impl baseTags
-      else if kind = .cloneSet ∨ kind = .deployment ∨ kind = .daemonSet then foreign
       else mismatch
     | some .depCanary => if shape = "canary" then runPack canaryPack br worldIn k impl baseTags else mismatch
     | some .csBlueGreen => if shape = "bg" then runPack (bgPack .cloneSet) br worldIn k impl baseTags else mismatch
